@@ -32,8 +32,8 @@ PROPS = {
         "definitional": False,
         "rule": "c19: stateless ffi::is_authorized (typed, _json, _json_str) vs Authorizer::is_authorized on API-parsed inputs, per case validate_request on and off, "
                 "policies as one text | array | map id->text | EST JSON, templates + links, schema none | JSON | Cedar, conformant and 6 kinds of non-conformant "
-                "requests, 5 kinds of corrupted policy documents; every 4th case also ffi validate / check_parse_{policy_set,schema,entities,context} / format / "
-                "policy,template,schema conversions vs the API (converted documents compared after re-parsing). c19h: histories of 1-10 preparse_policy_set / "
+                "requests, 5 kinds of corrupted policy documents; every 4th case also ffi validate / check_parse_{policy_set,schema,entities,scope_variables,context} / format / "
+                "policy,template,policy-set-parts,schema (incl. resolved types) conversions vs the API (converted documents compared after re-parsing). c19h: histories of 1-10 preparse_policy_set / "
                 "preparse_schema (30% invalid documents, 2-3 + 2 names, re-registration) / stateful_is_authorized calls; each stateful answer vs the stateless FFI "
                 "and the API on the latest successfully registered documents, and the whole history vs the Lean model (used document tags read off probe "
                 "policies' erroring ids). c19cli: the cedar binary built from /repo: authorize (cedar|json policies, links file, schema cedar|json, request-json|flags, "
